@@ -406,3 +406,18 @@ def gen(rng, tier):
     for i in range(6000 if big else 700):
         t = targets[i % len(targets)]
         yield SEP.join(["C20", "fuzz", t, str(rng.randrange(10 ** 9)), str(rng.choice([5, 12, 25])), "1" if rng.random() < 0.35 else "0"])
+
+
+def evidence_extra():
+    """Which callables have a Lean model (theorems) and which are covered by the monitor only."""
+    modelled = ["Bits.__lshift__", "Bits.__rshift__", "BitArray.__ilshift__", "BitArray.__irshift__", "BitArray.__imul__", "Bits.__mul__",
+                "BitArray.insert", "BitArray.overwrite", "BitStream.overwrite", "BitArray.rol", "BitArray.ror", "BitArray.invert",
+                "BitArray.byteswap", "ConstBitStream.pos (setter)", "ConstBitStream.bytealign", "ConstBitStream.read(int)"]
+    monitored = {}
+    for name, cls in list(CLASSES.items()) + [("Array", bitstring.Array)]:
+        obj = cls("u8") if name == "Array" else cls()
+        monitored[name] = _callables(obj)
+    monitored["Dtype"] = ["Dtype(...)", "build", "parse", "str/repr/hash/eq"]
+    monitored["pack"] = ["pack"]
+    return {"entry_points_with_theorems": modelled, "callables_monitored_only": monitored,
+            "readable_properties_monitored": READ_PROPS, "settable_properties_monitored": sorted(SET_PROPS)}
